@@ -833,6 +833,8 @@ class PluginHost(importlib.abc.MetaPathFinder, importlib.abc.Loader):
                 try:
                     b = behave("parseUDToJson", args)
                 except ValueError:
+                    if isinstance(data, memoryview) and not data.readonly and len(data):
+                        data[0] = data[0] ^ 0xFF    # a parser working in place (byte swap ...) on a buffer that lets it
                     if choose_behaviour(spec, "release?", args) == "ok" and isinstance(data, memoryview):
                         data.release()          # a parser that used `with data:` before failing
                     raise
@@ -843,7 +845,10 @@ class PluginHost(importlib.abc.MetaPathFinder, importlib.abc.Loader):
                     return json.dumps(["fake", name, tag])
                 return json.dumps({"Fake Parser": name, "Sub Type": int(subType), "Ver": int(version),
                                    "Len": len(data), "Tag": tag})
-            module.parseUDToJson = parseUDToJson
+            if spec.get("salt", 0) % 2:
+                module.parseUDToJson = lambda sub_type, ver, mv: parseUDToJson(sub_type, ver, mv)
+            else:
+                module.parseUDToJson = parseUDToJson
         elif t == "src":
             def parseSRCToJson(refcode, word2, word3, word4, word5, word6, word7, word8, word9):
                 args = (refcode, word2, word3, word4, word5, word6, word7, word8, word9)
@@ -856,7 +861,12 @@ class PluginHost(importlib.abc.MetaPathFinder, importlib.abc.Loader):
                     return ""
                 return json.dumps({"Fake SRC Parser": name, "Ref": refcode.strip(),
                                    "Tag": hashlib.sha256(repr(args).encode()).hexdigest()[:16]})
-            module.parseSRCToJson = parseSRCToJson
+            if spec.get("salt", 0) % 2:
+                # parameter names as in the OpenPOWER PEL README: parsers are called positionally
+                module.parseSRCToJson = lambda ascii_str, w2, w3, w4, w5, w6, w7, w8, w9: \
+                    parseSRCToJson(ascii_str, w2, w3, w4, w5, w6, w7, w8, w9)
+            else:
+                module.parseSRCToJson = parseSRCToJson
         elif t == "callout":
             def getMaintProcDesc(procName):
                 args = (procName,)
@@ -866,7 +876,10 @@ class PluginHost(importlib.abc.MetaPathFinder, importlib.abc.Loader):
                 if b == "empty":
                     return ""
                 return json.dumps(["fake description of " + str(procName), name])
-            module.getMaintProcDesc = getMaintProcDesc
+            if spec.get("salt", 0) % 2:
+                module.getMaintProcDesc = lambda procedure: getMaintProcDesc(procedure)
+            else:
+                module.getMaintProcDesc = getMaintProcDesc
         elif t == "registry":
             d = self.registry_dir
             module.__file__ = os.path.join(d, "__init__.py")
